@@ -756,8 +756,20 @@ func handleConnectionBindRequest(req Request, stunMsg *stun.Message) error {
 		return err
 	}
 
+	// Bytes the client sent right behind its request were read together with
+	// it: they are the beginning of the data stream.
+	pipelined := stunConn.TakeBuffered()
+
 	copyCompleteCtx, copyCompleteCancel := context.WithCancel(context.Background())
 	go func() {
+		if len(pipelined) > 0 {
+			if _, ioErr := tcpConn.Write(pipelined); ioErr != nil {
+				req.Log.Debugf("Exit tcpConn->stunConn read loop on error: %s", ioErr)
+				copyCompleteCancel()
+
+				return
+			}
+		}
 		if _, ioErr := io.Copy(tcpConn, stunConn.Conn()); ioErr != nil {
 			req.Log.Debugf("Exit tcpConn->stunConn read loop on error: %s", ioErr)
 		}
